@@ -47,8 +47,7 @@ Ltac split_ifs :=
   | |- context[if pgo ?p then _ else _] => destruct (pgo p) eqn:?
   | |- context[if mem ?i ?l then _ else _] => destruct (mem i l) eqn:?
   | |- context[loop_pc ?p] => unfold loop_pc; destruct (prem p) eqn:?
-  | |- context[if pcrash ?p then _ else _] =>
-      match goal with H : pcrash p = false |- _ => rewrite H end
+  | |- context[if pcrash ?p then _ else _] => unfold crash_pc; destruct (pcrash p)
   end.
 
 Lemma player_p s i s' : inv s -> step_player s i = Some s' ->
@@ -57,7 +56,6 @@ Proof.
   intros [G P] H. unfold step_player in H.
   destruct (get_player s i) as [p|] eqn:Ep; [|discriminate].
   pose proof (P i p Ep) as Pi. pose proof (nth_error_lt _ _ _ Ep) as Hlt.
-  pose proof (p_nocrash _ _ _ Pi) as Hnc.
   intros j q Hq.
   destruct (ppc_ p) eqn:Epc; break_step H; inversion H; subst s'; clear H;
    simpl in Hq; apply nth_error_upd_inv in Hq as [(-> & p0 & Hp0 & ->)|(Hne & Hq)].
